@@ -667,6 +667,7 @@ type C14Params struct {
 	Inflight int       `json:"inflight"` // concurrently
 	GenSeed  uint64    `json:"genseed"`
 	Outcomes []int     `json:"outcomes"` // weights: ok, error, cancel, deadline, early-return (server reset), failed open
+	Side     SideOpts  `json:"side"`     // interceptors / stats handlers (family c20.outcomes)
 }
 
 func genC14(g *rand.Rand, tier string) any {
@@ -693,8 +694,9 @@ func execC14(e *Env, pp any) {
 	}
 	g := rand.New(rand.NewPCG(p.GenSeed, 14))
 	sim := NewSim(e)
-	srv := sim.NewServer()
-	net := Build(e, TopoSpec{Kind: TopoDirect, Clients: 1, Links: p.Links}, srv, nil)
+	obs := newSideObs(e, p.Side)
+	srv := sim.NewServer(obs.serverOpts()...)
+	net := Build(e, TopoSpec{Kind: TopoDirect, Clients: 1, Links: p.Links}, srv, obs.clientOpts)
 	cc := net.CCs[0]
 	cout := net.CEnds[0].Out
 	// failed open: the transport write of chosen open envelopes fails once
@@ -928,6 +930,9 @@ func execC14(e *Env, pp any) {
 				}
 			}
 		}
+		// interceptors and stats handlers saw every RPC of the batch exactly once,
+		// whatever its outcome (C20)
+		checkSide(&MixRun{E: e, Sim: sim, Net: net, Obs: obs, P: &MixParams{}})
 		done += batch
 		e.Note("nontrivial")
 		if !sample(fmt.Sprintf("after %d RPCs", done)) {
@@ -959,4 +964,41 @@ func init() {
 		Faulty: true, FaultKinds: []string{"handler.abandon", "ctx.cancel"}})
 	Register(&Family{Name: "c14.history", Props: []string{"C14"}, New: func() any { return &C14Params{} }, Gen: genC14, Exec: execC14,
 		Faulty: true, FaultKinds: []string{"ctx.cancel", "ctx.deadline", "open.writeFail", "handler.abandon"}})
+	Register(&Family{Name: "c20.outcomes", Props: []string{"C20"}, New: func() any { return &C14Params{} }, Gen: func(g *rand.Rand, tier string) any {
+		p := genC14(g, tier).(*C14Params)
+		p.N = 8 + g.IntN(30)
+		p.Side = drawSideOpts(g)
+		if p.Side.CliStats+p.Side.SrvStats == 0 {
+			p.Side.CliStats, p.Side.SrvStats = 1, 1
+		}
+		p.Outcomes = []int{2, 1 + g.IntN(2), 1 + g.IntN(3), 1 + g.IntN(2), g.IntN(2), 1 + g.IntN(3)}
+		return p
+	}, Exec: execC14, Faulty: true, FaultKinds: []string{"ctx.cancel", "ctx.deadline", "open.writeFail", "handler.abandon"}})
+}
+
+// c15.break: several streams sending flat out while the connection's read
+// and write sides fail together (a workload aimed at the race detector: the
+// failing read loop and the failing senders touch the same connection state).
+func genC15Break(g *rand.Rand, tier string) any {
+	p := &C09Params{Links: drawLinks(g, 2), WriteFails: true}
+	p.Links[0].Cap, p.Links[1].Cap = -1, -1
+	n := 2 + g.IntN(6)
+	for i := 0; i < n; i++ {
+		c := &CallSpec{ID: i + 1, Kind: []int{KBidi, KCStream}[g.IntN(2)], MsgLen: 10}
+		c.CSendN = 5 + g.IntN(25)
+		c.CProg = []Op{{K: 'f', A: []Op{{K: 's', N: c.CSendN}, {K: 'c'}}, B: []Op{{K: 'R'}}}}
+		c.HProg = []Op{{K: 'R'}}
+		if c.Kind == KCStream {
+			c.HSendN = 1
+			c.HProg = append(c.HProg, Op{K: 's'})
+		}
+		p.Calls = append(p.Calls, c)
+	}
+	p.Pos = g.IntN(3)
+	return p
+}
+
+func init() {
+	Register(&Family{Name: "c15.break", Props: []string{"C15", "C09"}, New: func() any { return &C09Params{} }, Gen: genC15Break, Exec: execC09,
+		Faulty: true, FaultKinds: []string{"link.readFail", "link.writeFail"}})
 }
